@@ -14,6 +14,7 @@
 //! reader supplied by a test harness. When no opener is installed on the calling thread,
 //! `File::open` is `std::fs::File::open`, so enabling the feature alone changes nothing.
 //! No fault logic lives here: what the reader does is entirely up to the harness.
+//! Likewise the wall clock behind `Epoch::now` can be replaced, per thread, by a value the harness sets.
 
 use std::cell::RefCell;
 use std::io::{self, Read};
@@ -29,6 +30,23 @@ thread_local! {
 /// Installs (or, with `None`, removes) this thread's opener and returns the previous one.
 pub fn set_opener(opener: Option<Opener>) -> Option<Opener> {
     OPENER.with(|slot| core::mem::replace(&mut *slot.borrow_mut(), opener))
+}
+
+thread_local! {
+    static NOW: core::cell::Cell<Option<Option<core::time::Duration>>> = const { core::cell::Cell::new(None) };
+}
+
+/// Installs (or, with `None`, removes) this thread's simulated wall clock and returns the previous one.
+/// `Some(Some(d))`: the clock reads `d` past the UNIX epoch; `Some(None)`: the clock is set before 1970.
+pub fn set_now(
+    now: Option<Option<core::time::Duration>>,
+) -> Option<Option<core::time::Duration>> {
+    NOW.with(|slot| slot.replace(now))
+}
+
+/// This thread's simulated wall clock, if one is installed (read by `Epoch::now`).
+pub(crate) fn now() -> Option<Option<core::time::Duration>> {
+    NOW.with(|slot| slot.get())
 }
 
 /// Stand-in for `std::fs::File`, restricted to what the leap second file loader needs.
